@@ -465,7 +465,14 @@ class RecipeGridRendererMixin:
         # Capture the first title as recipe title. Ignore it if it isn't a H1
         # level title or if it contains HTML or a scaled value substitution
         # since we can't easily turn these into a plain text title.
-        if self.first_heading and level == 1 and "<" not in text and "%" not in text:
+        if (
+            self.first_heading
+            and level == 1
+            and "<" not in text
+            and not any(
+                placeholder in text for placeholder in self.output.scaled_value_strings
+            )
+        ):
             match = self.title_serving_count_pattern.search(text)
             if match is None:
                 self.output.title = html.unescape(text.strip())
